@@ -694,7 +694,24 @@ func checkHelpers(c *Ctx) {
 	}, "the string itself (verbatim)")
 	checkNullable(nullableUnix, "NullableUnix", func(v ssa.Value, param ssa.Value) bool {
 		call, ok := v.(*ssa.Call)
-		if !ok || calleeName(call) != "fmt.Sprintf" {
+		if !ok {
+			return false
+		}
+		// the decimal text of t.Unix(), however it is spelled
+		if n := calleeName(call); n == "strconv.FormatInt" || n == "strconv.Itoa" {
+			if n == "strconv.FormatInt" {
+				if base, isK := constInt(call.Call.Args[1]); !isK || base != 10 {
+					return false
+				}
+			}
+			if u, isCall := stripConv(call.Call.Args[0]).(*ssa.Call); isCall && calleeName(u) == "(time.Time).Unix" {
+				if ld, ok := u.Call.Args[0].(*ssa.UnOp); ok && ld.X == param {
+					return true
+				}
+			}
+			return false
+		}
+		if calleeName(call) != "fmt.Sprintf" {
 			return false
 		}
 		if f, ok := constString(call.Call.Args[0]); !ok || f != "%d" {
